@@ -39,23 +39,46 @@ CLAIM = dict(
           "the model of route() on such a machine never enters the repair, never fails and returns a valid tree "
           "(routeNet_faultfree); (8) a general lemma: any forest with one entry per chip, one parent per node and a "
           "rank decreasing along edges unfolds to a tree with pairwise distinct chips covering exactly the chips "
-          "below the root. NOT proved: chip-distinctness / rootedness / completeness of the leaves after the "
-          "dead-link repair loop (avoidDeadLinks_valid), and the error clause when the repair runs (that the repair "
-          "loop around a_star - subtree enumeration, the `Cycle created` assertion - raises nothing, and that a "
-          "strongly connected machine never yields the disconnected-machine error); these are covered per case by exact stage-wise correspondence of the real code with the "
-          "model (recorded random draws and set orders) and by validTree evaluated on every tree the real router "
-          "returns, the error clause being decided by a Lean strong-connectivity computation cross-checked against "
-          "an independent Python one."),
+          "below the root; (9) ROUND 3, the dead-link repair loop of the FIXED code (parent of an overlapped node "
+          "searched in the whole lookup): the forest invariant RInv (one entry per chip, one parent per node, no "
+          "cycle, component roots = tree root + heads of the broken links still to reconnect, every entry below "
+          "one of them) is established by copy_and_disconnect_tree for any input (copyAndDisconnect_forest) and "
+          "preserved by the body of the repair loop for every A* outcome - detours through the orphaned subtree "
+          "included - and every processing order (repairOne_preserves, using aStar_path_simple: an A* path "
+          "visits no chip twice and avoids the sink); avoidDeadLinks_valid: whenever the model of route() returns "
+          "after a repair, its forest unfolds with the oracle's fuel to a tree satisfying ALL clauses of "
+          "ValidTree, with every entry of the lookup on the tree; nerNet_leaves_are_dests + routeNet_valid: with "
+          "source and destinations on working chips EVERY successful run (repair entered or not, any machine) "
+          "returns a valid routing tree rooted at the source chip; (10) route_only_failure for every machine: "
+          "with source / sinks on working chips the model of route() has no error other than "
+          "MachineHasDisconnectedSubregion and errors of its oracle inputs (never dupNode, KeyError, TypeError, "
+          "assertion `Cycle created`, exhausted fuel: copyAndDisconnect_total, repairOne_only_disconnected), "
+          "MachineHasDisconnectedSubregion implies the machine is not strongly connected "
+          "(route_succeeds_strongly_connected), and the strong-connectivity oracle is complete as well as sound "
+          "(stronglyConnected_complete, stronglyConnected_iff), so a Disconnected outcome means two working chips "
+          "really cannot reach each other (route_disconnected_is_real); (11) legacy_two_parents_witness: on the "
+          "machine of corpus/C03/f3-two-parents-2x4.json the UNFIXED loop (parent searched only inside "
+          "lookup[child]) leaves a node with two parent links and an invalid tree, the fixed loop a valid one "
+          "(kernel-evaluated). VALIDATED, not proved: that the Lean model computes what the Python code computes "
+          "(exact stage-wise correspondence of ner_net, route_has_dead_links, copy_and_disconnect_tree, every "
+          "a_star path, avoid_dead_links, the attached sinks and the outcome, with recorded random draws and set "
+          "orders), that route() treats the nets of one call independently, and - on the implementation's own "
+          "output - validTree evaluated on every tree the real router returns, the error clause being decided by "
+          "the Lean strong-connectivity computation cross-checked against an independent Python one."),
     design="3/C03",
-    note=("PARTIAL: avoidDeadLinks_valid (one parent per node / no cycle after the repair) and route_only_failure "
-          "for machines with faults are not proved (route_only_failure is proved for the fault-free machine: "
-          "routeNet_faultfree; aStar_complete and aStar_only_disconnected are proved for every machine). nerNet_valid is proved in full, using the C11 theorems through Props/Cross03_11.lean; the earlier "
-          "parts named ..._partial are kept. `fault-free` for a net routed without wrap-around allows exactly the "
-          "links that leave the w x h rectangle to be dead. The oracle tape of the model is arbitrary in the "
-          "theorems (tape / badDraw errors = the tape handed in is not a recording of a real run). Link/route tables "
-          "are regenerated from rig/links.py and routing_table/entries.py on every run. Stub branches (childless "
-          "non-sink nodes) left behind by the repair are observed on the real code and are not treated as a "
-          "violation."),
+    note=("All theorems are about the Lean model of the FIXED code (fixes/c03-avoid-dead-links-parent.diff applied: "
+          "model flag legacy = false); for the unfixed loop avoidDeadLinks_valid is false (legacy_two_parents_witness). "
+          "Hypotheses of routeNet_valid / route_only_failure: source chip and destination / sink chips are working "
+          "chips of the machine (what place() guarantees), sinks lie on the source chip or on a destination chip; "
+          "avoidDeadLinks_valid itself needs no hypothesis. The oracle inputs of the model (tape, destination order, "
+          "processing order of the broken links) are arbitrary in the theorems; tape / badDraw / badOracle errors "
+          "mean the inputs handed in are not a recording of a real run. `fault-free` (nerNet_valid, "
+          "routeNet_faultfree) for a net routed without wrap-around allows exactly the links that leave the w x h "
+          "rectangle to be dead. The earlier parts named ..._partial are kept. Link/route tables are regenerated "
+          "from rig/links.py and routing_table/entries.py on every run. Stub branches (childless non-sink nodes) "
+          "left behind by the repair are observed on the real code and are not treated as a violation. The harness "
+          "also checks the proved facts on the executable model per case (model result valid; model Disconnected "
+          "only on a machine the oracle rejects) as a consistency tie between theorems and driver."),
     technique="Lean 4 theorems over a hand-written model + differential correspondence + Lean spec as oracle")
 
 THEOREMS = ["link_tables", "validTree_iff", "validTree_connects", "aStar_path", "copyAndDisconnect_live",
@@ -64,7 +87,13 @@ THEOREMS = ["link_tables", "validTree_iff", "validTree_connects", "aStar_path", 
             "cross_link_tables", "cross_lengths", "cross_torusPath", "cross_ldf", "cross_hexagons",
             "cross_linksBetween", "meshLen_is_distance", "torusLen_is_distance", "hexagons_exact", "torus_route",
             "mesh_route", "forest_unfolds", "nerNet_valid", "nerNet_only_oracle_errors", "routeNet_faultfree",
-            "aStar_complete", "aStar_only_disconnected", "stronglyConnected_sound", "aStar_succeeds"]
+            "aStar_complete", "aStar_only_disconnected", "stronglyConnected_sound", "aStar_succeeds",
+            # round 3: the repair loop
+            "aStar_path_simple", "RInv_iff", "copyAndDisconnect_forest", "repairOne_preserves",
+            "avoidDeadLinks_valid", "legacy_two_parents_witness",
+            "copyAndDisconnect_total", "repairOne_only_disconnected", "route_only_failure",
+            "route_succeeds_strongly_connected", "stronglyConnected_complete", "stronglyConnected_iff",
+            "route_disconnected_is_real", "nerNet_leaves_are_dests", "routeNet_valid"]
 
 RULE = ("machines 1x1..12x12 (incl. 1xN, 2xN), torus / mesh / partly wrapped, 0-30% dead directed links (half of them "
         "dead in one direction only), dead chips; one net per case with fan-out 0-12, sinks on the source chip, "
@@ -406,6 +435,9 @@ def eval_cases(ctx, cases):
                 diffs.append(("ner_net", mo["ner"], rec["ner"]))
             if mo["repaired"] != rec["repaired"]:
                 diffs.append(("route_has_dead_links", mo["repaired"], rec["repaired"]))
+            if mo.get("model_valid") is not True:
+                # routeNet_valid: the model's own result is a valid tree (theorem <-> driver consistency)
+                diffs.append(("model_valid_theorem", mo.get("model_valid"), True))
             if rec["copy"] is not None and mo["copy"] is not None:
                 mc = dict(mo["copy"], broken=sorted(mo["copy"]["broken"]))
                 if mc != rec["copy"]:
@@ -425,6 +457,9 @@ def eval_cases(ctx, cases):
         else:
             if "ok" in res or res["err"] != model["err"]:
                 diffs.append(("outcome", model["err"], res.get("err", "ok")))
+            if model["err"] == "Disconnected" and minfo.get("strong"):
+                # route_only_failure: the model reports Disconnected only on a machine that is not strongly connected
+                diffs.append(("disconnected_theorem", "Disconnected", "stronglyConnected = true"))
         if diffs:
             st, a, b = diffs[0]
             ctx.mismatch("c03." + st, "first differing stage %s: model=%s impl=%s" % (st, str(a)[:400], str(b)[:400]), c)
@@ -571,8 +606,8 @@ def run(ctx):
         "vertices of a net are placed on working chips, core allocations are non-empty slices within 0..18, endpoint "
         "routes are members of Routes (what place()/allocate() and the constraint classes produce)",
         "one net per call is checked (route() treats nets independently)",
-        "whole-net validity is proved for the fault-free machine (nerNet_valid, routeNet_faultfree); the repair loop "
-        "and whole-net validity on machines with faults are validated per case by the Lean oracle, not proved"]
+        "whole-net validity and the error clause are proved for the Lean model on every machine (routeNet_valid, "
+        "route_only_failure); the correspondence of the model with the code is validated per case, not proved"]
     cdir = os.path.join(os.path.dirname(os.path.dirname(os.path.abspath(__file__))), "corpus", "C03")
     if os.path.isdir(cdir):
         corpus = [json.load(open(os.path.join(cdir, f)))["case"] for f in sorted(os.listdir(cdir)) if f.endswith(".json")]
